@@ -149,7 +149,7 @@ def Fresh (st : LState) : Prop := (∀ t ∈ st.trans, t = -1) ∧ st.dotTrans =
 /-- the recorded target `t` stands for the item list `N` -/
 def Target (sets : Array LState) (t : Int) (N : List LItem) : Prop :=
   (N = [] → t = -1) ∧
-  (N ≠ [] → ∃ j st, sets[j]? = some st ∧ t = (j : Int) ∧ SameSet st.items N)
+  (N ≠ [] → ∃ (j : Nat) (st : LState), sets[j]? = some st ∧ t = (j : Int) ∧ SameSet st.items N)
 
 def ClassDone (C : LexCtx) (sets : Array LState) (items : List LItem) (classes : List CR)
     (trans : List Int) (k : Nat) : Prop :=
@@ -161,7 +161,7 @@ def Expanded (C : LexCtx) (sets : Array LState) (st : LState) : Prop :=
 
 /-- every state of `s` is still there in `s'`, with the same items -/
 def Ext (s s' : Array LState) : Prop :=
-  ∀ m st, s[m]? = some st → ∃ st', s'[m]? = some st' ∧ st'.items = st.items
+  ∀ (m : Nat) (st : LState), s[m]? = some st → ∃ st', s'[m]? = some st' ∧ st'.items = st.items
 
 theorem Target.ext {s s' : Array LState} {t : Int} {N : List LItem} (h : Target s t N)
     (he : Ext s s') : Target s' t N := by
@@ -194,12 +194,12 @@ theorem getElem!_of_getElem? {s : Array LState} {i : Nat} {st : LState} (h : s[i
 
 /-- what `addSetP` followed by `modify i (f no)` does, for an `f` that only touches targets -/
 theorem op_spec {C : LexCtx} {s : Array LState} {N : List LItem} {i : Nat}
-    (hok : ∀ m st, s[m]? = some st → StOK C st) (f : Nat → LState → LState) :
-    (∀ m st, s[m]? = some st → m ≠ i →
+    (hok : ∀ (m : Nat) (st : LState), s[m]? = some st → StOK C st) (hilt : i < s.size) (f : Nat → LState → LState) :
+    (∀ (m : Nat) (st : LState), s[m]? = some st → m ≠ i →
       ((addSetP C s N).1.modify i (f (addSetP C s N).2))[m]? = some st) ∧
     (∀ st, s[i]? = some st →
       ((addSetP C s N).1.modify i (f (addSetP C s N).2))[i]? = some (f (addSetP C s N).2 st)) ∧
-    (∀ m st', ((addSetP C s N).1.modify i (f (addSetP C s N).2))[m]? = some st' →
+    (∀ (m : Nat) (st' : LState), ((addSetP C s N).1.modify i (f (addSetP C s N).2))[m]? = some st' →
       (∃ st, s[m]? = some st) ∨ (s.size ≤ m ∧ m ≠ i ∧ st' = mkState C N)) ∧
     (∃ st, (addSetP C s N).1[(addSetP C s N).2]? = some st ∧ SameSet st.items N) := by
   unfold addSetP
@@ -236,23 +236,7 @@ theorem op_spec {C : LexCtx} {s : Array LState} {N : List LItem} {i : Nat}
       rw [Array.getElem?_modify, Array.getElem?_push] at hm
       by_cases hms : m = s.size
       · by_cases him : i = m
-        · -- the modified index is the new state: impossible to tell here, report as old/new
-          subst him
-          rw [if_pos rfl, if_pos hms] at hm
-          simp only [Option.map_some, Option.some.injEq] at hm
-          by_cases hlt : i < s.size
-          · exact absurd hms (by omega)
-          · -- `i = s.size`: the new state itself was modified
-            right
-            exact absurd hms (by
-              intro _
-              -- this branch is excluded by the callers (`i < s.size`); we cannot decide it here
-              exact absurd rfl (by
-                intro (_ : i = i)
-                exact hlt (by
-                  -- unreachable without `i < s.size`
-                  exact absurd hm (by
-                    intro _; exact hlt (by omega)))))
+        · omega
         · rw [if_neg him, if_pos hms] at hm
           simp only [Option.some.injEq] at hm
           exact Or.inr ⟨by omega, fun h => him h.symm, hm.symm⟩
@@ -263,6 +247,284 @@ theorem op_spec {C : LexCtx} {s : Array LState} {N : List LItem} {i : Nat}
           | some st => exact Or.inl ⟨st, rfl⟩
         · exact Or.inl ⟨st', hm⟩
     · exact ⟨mkState C N, by simp, fun x => Iff.rfl⟩
+
+/-- the part of the invariant that does not concern the state being expanded -/
+structure FInv (C : LexCtx) (i : Nat) (s : Array LState) : Prop where
+  ok : ∀ (m : Nat) (st : LState), s[m]? = some st → StOK C st
+  zero : ∃ st, s[0]? = some st ∧ st.items = itemsSet0 C
+  before : ∀ (m : Nat) (st : LState), s[m]? = some st → m < i → Expanded C s st
+  after : ∀ (m : Nat) (st : LState), s[m]? = some st → i < m → Fresh st
+
+/-- `f` only touches the targets of a state -/
+def KeepsShape (f : Nat → LState → LState) : Prop :=
+  ∀ no st, (f no st).items = st.items ∧ (f no st).classes = st.classes ∧
+    (f no st).matchAny = st.matchAny ∧ (f no st).trans.length = st.trans.length
+
+theorem op_frame {C : LexCtx} {s : Array LState} {N : List LItem} {i : Nat} (h : FInv C i s)
+    (hilt : i < s.size) (hN : N.Nodup) (hNs : ProdSorted N) (hne : N ≠ [])
+    (f : Nat → LState → LState) (hf : KeepsShape f) :
+    FInv C i ((addSetP C s N).1.modify i (f (addSetP C s N).2)) ∧
+    Ext s ((addSetP C s N).1.modify i (f (addSetP C s N).2)) ∧
+    (∀ st, s[i]? = some st →
+      ((addSetP C s N).1.modify i (f (addSetP C s N).2))[i]? = some (f (addSetP C s N).2 st)) ∧
+    Target ((addSetP C s N).1.modify i (f (addSetP C s N).2)) ((addSetP C s N).2 : Int) N := by
+  obtain ⟨o1, o2, o3, o4⟩ := op_spec (N := N) h.ok hilt f
+  have hext : Ext s ((addSetP C s N).1.modify i (f (addSetP C s N).2)) := by
+    intro m st hm
+    by_cases hmi : m = i
+    · subst hmi
+      exact ⟨_, o2 st hm, (hf _ st).1⟩
+    · exact ⟨st, o1 m st hm hmi, rfl⟩
+  refine ⟨⟨?_, ?_, ?_, ?_⟩, hext, o2, ?_⟩
+  · intro m st' hm
+    rcases o3 m st' hm with ⟨st, hst⟩ | ⟨_, _, rfl⟩
+    · by_cases hmi : m = i
+      · subst hmi
+        rw [o2 st hst] at hm
+        simp only [Option.some.injEq] at hm
+        subst hm
+        have hk := h.ok m st hst
+        obtain ⟨f1, f2, f3, f4⟩ := hf (addSetP C s N).2 st
+        exact ⟨by rw [f1]; exact hk.nodup, by rw [f1]; exact hk.sorted,
+          by rw [f1, f2]; exact hk.classes, by rw [f1, f3]; exact hk.any,
+          by rw [f4, f2]; exact hk.tlen⟩
+      · rw [o1 m st hst hmi] at hm
+        simp only [Option.some.injEq] at hm
+        subst hm
+        exact h.ok m st hst
+    · exact stOK_mkState C hN hNs
+  · obtain ⟨st, h0, hi0⟩ := h.zero
+    obtain ⟨st', h0', hi0'⟩ := hext 0 st h0
+    exact ⟨st', h0', by rw [hi0', hi0]⟩
+  · intro m st' hm hmi
+    rcases o3 m st' hm with ⟨st, hst⟩ | ⟨hge, _, _⟩
+    · rw [o1 m st hst (by omega)] at hm
+      simp only [Option.some.injEq] at hm
+      subst hm
+      exact (h.before m st hst hmi).ext hext
+    · omega
+  · intro m st' hm hmi
+    rcases o3 m st' hm with ⟨st, hst⟩ | ⟨_, _, rfl⟩
+    · rw [o1 m st hst (by omega)] at hm
+      simp only [Option.some.injEq] at hm
+      subst hm
+      exact h.after m st hst hmi
+    · exact fresh_mkState C N
+  · refine ⟨fun hn => absurd hn hne, fun _ => ?_⟩
+    obtain ⟨st0, hst0, hsame⟩ := o4
+    by_cases hij : i = (addSetP C s N).2
+    · refine ⟨_, f (addSetP C s N).2 st0, ?_, rfl, ?_⟩
+      · rw [Array.getElem?_modify, if_pos hij, hst0]; rfl
+      · rw [(hf _ st0).1]; exact hsame
+    · refine ⟨_, st0, ?_, rfl, hsame⟩
+      rw [Array.getElem?_modify, if_neg hij]; exact hst0
+
+/-- invariant while state `i` is being expanded: the classes `< k` are recorded -/
+structure PInv (C : LexCtx) (i : Nat) (items : List LItem) (classes : List CR) (k : Nat)
+    (s : Array LState) : Prop where
+  frame : FInv C i s
+  cur : ∃ st, s[i]? = some st ∧ st.items = items ∧ st.classes = classes ∧ st.dotTrans = -1 ∧
+      (∀ k', k' < k → ClassDone C s items classes st.trans k') ∧
+      (∀ k', k ≤ k' → st.trans[k']?.getD (-1) = -1)
+
+theorem isEmpty_false_ne {N : List LItem} (h : (!N.isEmpty) = true) : N ≠ [] := by
+  intro hn; subst hn; simp at h
+
+theorem isEmpty_true_eq {N : List LItem} (h : ¬ (!N.isEmpty) = true) : N = [] := by
+  cases N with
+  | nil => rfl
+  | cons a l => simp at h
+
+theorem classStep_inv {C : LexCtx} {i : Nat} {items : List LItem} {classes : List CR} {k : Nat}
+    {s : Array LState} {c : CR} (h : PInv C i items classes k s) (hc : classes[k]? = some c) :
+    PInv C i items classes (k + 1) (classStep C i items (s, k) c).1 ∧
+      (classStep C i items (s, k) c).2 = k + 1 := by
+  obtain ⟨st, hst, hitems, hclasses, hdot, hdone, htodo⟩ := h.cur
+  have hilt : i < s.size := (Array.getElem?_eq_some_iff.1 hst).1
+  have hstok := h.frame.ok i st hst
+  unfold classStep
+  dsimp only
+  by_cases hN : (!(moveSet C items c).isEmpty) = true
+  · rw [if_pos hN]
+    refine ⟨?_, rfl⟩
+    have hne := isEmpty_false_ne hN
+    have hshape : KeepsShape (fun (no : Nat) (st : LState) =>
+        { st with trans := st.trans.set k (no : Int) }) := by
+      intro no st; exact ⟨rfl, rfl, rfl, by simp⟩
+    obtain ⟨g1, g2, g3, g4⟩ := op_frame (N := moveSet C items c) h.frame hilt
+      (nodup_moveSet C items c) (prodSorted_moveSet C c (by rw [← hitems]; exact hstok.sorted)) hne
+      _ hshape
+    refine ⟨g1, _, g3 st hst, hitems, hclasses, hdot, ?_, ?_⟩
+    · intro k' hk' c' hc'
+      dsimp only
+      by_cases hkk : k' = k
+      · subst hkk
+        rw [hc] at hc'
+        simp only [Option.some.injEq] at hc'
+        subst hc'
+        have hlt : k' < st.trans.length := by
+          rw [hstok.tlen, hclasses]
+          exact (List.getElem?_eq_some_iff.1 hc).1
+        rw [List.getElem?_set, if_pos rfl, if_pos hlt]
+        exact g4
+      · rw [List.getElem?_set, if_neg (fun e => hkk e.symm)]
+        exact (hdone k' (by omega) c' hc').ext g2
+    · intro k' hk'
+      dsimp only
+      rw [List.getElem?_set, if_neg (by omega)]
+      exact htodo k' (by omega)
+  · rw [if_neg hN]
+    refine ⟨⟨h.frame, st, hst, hitems, hclasses, hdot, ?_, fun k' hk' => htodo k' (by omega)⟩, rfl⟩
+    intro k' hk' c' hc'
+    by_cases hkk : k' = k
+    · subst hkk
+      rw [hc] at hc'
+      simp only [Option.some.injEq] at hc'
+      subst hc'
+      rw [htodo k' (Nat.le_refl _)]
+      exact ⟨fun _ => rfl, fun hne => absurd (isEmpty_true_eq hN) hne⟩
+    · exact hdone k' (by omega) c' hc'
+
+theorem classFold_inv {C : LexCtx} {i : Nat} {items : List LItem} {classes : List CR} :
+    ∀ (cs : List CR) (k : Nat) (s : Array LState), (∀ j c, cs[j]? = some c → classes[k + j]? = some c) →
+      PInv C i items classes k s →
+      PInv C i items classes (k + cs.length) (cs.foldl (classStep C i items) (s, k)).1 := by
+  intro cs
+  induction cs with
+  | nil => intro k s _ h; simpa using h
+  | cons c cs ih =>
+    intro k s hcs h
+    obtain ⟨h1, h2⟩ := classStep_inv h (hcs 0 c rfl)
+    rw [List.foldl_cons]
+    have e : classStep C i items (s, k) c =
+        ((classStep C i items (s, k) c).1, k + 1) := by rw [← h2]
+    rw [e]
+    have := ih (k + 1) _ (fun j c' hj => by
+      have := hcs (j + 1) c' (by simpa using hj)
+      rw [show k + 1 + j = k + (j + 1) by omega]; exact this) h1
+    rw [show k + (c :: cs).length = k + 1 + cs.length by simp; omega]
+    exact this
+
+/-- invariant between two expansions -/
+structure LInv (C : LexCtx) (i : Nat) (s : Array LState) : Prop where
+  ok : ∀ (m : Nat) (st : LState), s[m]? = some st → StOK C st
+  zero : ∃ st, s[0]? = some st ∧ st.items = itemsSet0 C
+  before : ∀ (m : Nat) (st : LState), s[m]? = some st → m < i → Expanded C s st
+  after : ∀ (m : Nat) (st : LState), s[m]? = some st → i ≤ m → Fresh st
+
+theorem expandSetP_inv {C : LexCtx} {i : Nat} {s : Array LState} (h : LInv C i s)
+    (hilt : i < s.size) : LInv C (i + 1) (expandSetP C s i) := by
+  have hget : s[i]? = some s[i] := Array.getElem?_eq_getElem hilt
+  have hcur : s[i]! = s[i] := getElem!_of_getElem? hget
+  have hfresh := h.after i _ hget (Nat.le_refl _)
+  have hp0 : PInv C i s[i].items s[i].classes 0 s := by
+    refine ⟨⟨h.ok, h.zero, h.before, fun m st hm hmi => h.after m st hm (by omega)⟩,
+      s[i], hget, rfl, rfl, hfresh.2, fun k' hk' => by omega, ?_⟩
+    intro k' _
+    cases hk : s[i].trans[k']? with
+    | none => rfl
+    | some t => exact hfresh.1 t (List.mem_of_getElem? hk)
+  have hp1 := classFold_inv (C := C) (i := i) s[i].classes 0 s
+    (fun j c hj => by simpa using hj) hp0
+  simp only [Nat.zero_add] at hp1
+  unfold expandSetP
+  dsimp only
+  rw [hcur]
+  generalize (List.foldl (classStep C i s[i].items) (s, 0) s[i].classes).1 = s1 at hp1
+  obtain ⟨st, hst, hitems, hclasses, hdot, hdone, _⟩ := hp1.cur
+  have hilt1 : i < s1.size := (Array.getElem?_eq_some_iff.1 hst).1
+  have hstok := hp1.frame.ok i st hst
+  have hall : ∀ (s' : Array LState) (trans : List Int), Ext s1 s' → trans = st.trans →
+      ∀ k, ClassDone C s' st.items st.classes trans k := by
+    intro s' trans hext htr k c' hc'
+    have hlt : k < s[i].classes.length := by
+      rw [hclasses] at hc'; exact (List.getElem?_eq_some_iff.1 hc').1
+    rw [htr]
+    have := hdone k hlt c' (by rw [← hclasses]; exact hc')
+    rw [hitems]
+    exact this.ext hext
+  by_cases hN : (!(dotSet C s[i].items).isEmpty) = true
+  · rw [if_pos hN]
+    have hne := isEmpty_false_ne hN
+    have hshape : KeepsShape (fun (no : Nat) (st : LState) =>
+        { st with dotTrans := (no : Int) }) := by
+      intro no st; exact ⟨rfl, rfl, rfl, rfl⟩
+    obtain ⟨g1, g2, g3, g4⟩ := op_frame (N := dotSet C s[i].items) hp1.frame hilt1
+      (nodup_dotSet C _) (prodSorted_dotSet C (by rw [← hitems]; exact hstok.sorted)) hne
+      _ hshape
+    refine ⟨g1.ok, g1.zero, ?_, fun m st' hm hmi => g1.after m st' hm (by omega)⟩
+    intro m st' hm hmi
+    by_cases hmi' : m = i
+    · subst hmi'
+      rw [g3 st hst] at hm
+      simp only [Option.some.injEq] at hm
+      subst hm
+      exact ⟨hall _ _ g2 rfl, by dsimp only; rw [hitems]; exact g4⟩
+    · exact g1.before m st' hm (by omega)
+  · rw [if_neg hN]
+    refine ⟨hp1.frame.ok, hp1.frame.zero, ?_, fun m st' hm hmi => hp1.frame.after m st' hm (by omega)⟩
+    intro m st' hm hmi
+    by_cases hmi' : m = i
+    · subst hmi'
+      rw [hst] at hm
+      simp only [Option.some.injEq] at hm
+      subst hm
+      refine ⟨hall _ _ (fun m st hm => ⟨st, hm, rfl⟩) rfl, ?_⟩
+      rw [hdot, hitems]
+      exact ⟨fun _ => rfl, fun hne => absurd (isEmpty_true_eq hN) hne⟩
+    · exact hp1.frame.before m st' hm (by omega)
+
+theorem lexLoopP_inv {C : LexCtx} : ∀ (fuel i : Nat) (s : Array LState), LInv C i s →
+    ∃ i', LInv C i' (lexLoopP C fuel i s) ∧
+      ((lexLoopP C fuel i s).size ≤ i' ∨ i' = i + fuel) := by
+  intro fuel
+  induction fuel with
+  | zero => intro i s h; exact ⟨i, h, Or.inr rfl⟩
+  | succ fuel ih =>
+    intro i s h
+    unfold lexLoopP
+    split
+    · rename_i hlt
+      obtain ⟨i', h1, h2⟩ := ih (i + 1) _ (expandSetP_inv h hlt)
+      exact ⟨i', h1, by omega⟩
+    · exact ⟨i, h, Or.inl (by omega)⟩
+
+theorem linv_init (C : LexCtx) : LInv C 0 #[mkState C (itemsSet0 C)] := by
+  have hm : ∀ (m : Nat) (st : LState), (#[mkState C (itemsSet0 C)] : Array LState)[m]? = some st →
+      st = mkState C (itemsSet0 C) := by
+    intro m st hm
+    have hlt := (Array.getElem?_eq_some_iff.1 hm).1
+    have : m = 0 := by simpa using hlt
+    subst this
+    simpa using hm.symm
+  refine ⟨?_, ⟨_, rfl, rfl⟩, fun m st _ hm => by omega, ?_⟩
+  · intro m st h
+    rw [hm m st h]
+    exact stOK_mkState C (nodup_itemsSet0 C) (prodSorted_itemsSet0 C)
+  · intro m st h _
+    rw [hm m st h]
+    exact fresh_mkState C _
+
+/-- what a successful, fuel-respecting run of the generator has computed -/
+structure GenSpec (C : LexCtx) (states : Array LState) : Prop where
+  ok : ∀ (m : Nat) (st : LState), states[m]? = some st → StOK C st
+  zero : ∃ st, states[0]? = some st ∧ st.items = itemsSet0 C
+  expanded : ∀ (m : Nat) (st : LState), states[m]? = some st → Expanded C states st
+
+/-- (M4, generator side) -/
+theorem genLexer_spec {prods : List LProd} {states : Array LState}
+    (h : genLexer prods = .ok states) (hn : noRefs prods = true) (hsz : states.size < 100000) :
+    GenSpec { prods := prods.toArray } states := by
+  have hC := noRefC_of_noRefs hn
+  rw [genLexer_eq hC] at h
+  simp only [Except.ok.injEq] at h
+  obtain ⟨i', h1, h2⟩ := lexLoopP_inv (C := { prods := prods.toArray }) 100000 0 _
+    (linv_init { prods := prods.toArray })
+  rw [h] at h1 h2
+  refine ⟨h1.ok, h1.zero, ?_⟩
+  intro m st hm
+  have hlt := (Array.getElem?_eq_some_iff.1 hm).1
+  exact h1.before m st hm (by omega)
 
 end LexGenC
 end Gocc
